@@ -260,7 +260,30 @@ class Body:
 class Program:
     def __init__(self, path):
         with open(path) as f:
-            self.j = json.load(f)
+            text = f.read()
+        # A method of a crate trait implemented for a type of another crate, or of a trait of another module implemented for a crate type, is
+        # printed `<Type as Trait>::method` - a path without a module.  Rules select what they look at by module prefix, so these bodies are given
+        # the module they are written in, in the form rustc prints inherent impls: `module::<impl Trait for Type>::method` (every mention of the
+        # path - body, callee, resolved callee, closure parent - is renamed alike).
+        import re as _re
+        ren = {}
+        for bj in json.loads(text)['bodies']:
+            m = _re.match(r'^(<(.+?) as (.+?)>)::[^<>]*$', bj['path'])
+            if m is None or bj.get('from_expansion') or bj.get('exp'):
+                continue
+            whole, ty, tr = m.group(1), m.group(2), m.group(3)
+            if whole in ren:
+                continue
+            local = ('bbsplus::', 'cl03::', 'utils::', 'keys::', 'schemes::', 'errors::')
+            home = ty if ty.startswith(local) else tr if tr.startswith(local) else None
+            if home is None:
+                continue
+            mod = home.split('<')[0].rsplit('::', 1)[0]
+            ren[whole] = '%s::<impl %s for %s>' % (mod, tr, ty)
+        for old_, new_ in ren.items():
+            text = text.replace(old_ + '::', new_ + '::')
+        self.j = json.loads(text)
+        self.renamed = ren
         self.cfg = self.j['cfg']
         self.bodies = {}
         for bj in self.j['bodies']:
